@@ -10,7 +10,9 @@ Written from `doc/pseudo-instructions.md`, *DN,DB,DW,DD,DQ and DT*:
 * "the `DUP` operator permits the repeated placing of constant sequences or the reservation of whole memory
   blocks" (`dw 20 dup (?)` reserves 40 bytes), the argument "may consist of several components, that may
   themselves be `DUP`s … works recursively": an argument list stands for a *number of elements*
-  (`elemsArgs`), a `DUP` multiplies the number of its body;
+  (`elemsArgs`), a `DUP` multiplies the number of its body - a `DUP` with the count 0 therefore stands for
+  nothing, whatever is written in its body: it is neither a reservation nor a constant of the statement
+  (`hasQ`, `hasC`; the same reading as `Spec/Data.lean specArg`);
 * "if `DB` is used in an address space that is not byte addressable (like the Atmel AVR's `CODE` segment),
   bytes are packed in pairs into 16 bit words … If the total number of bytes is odd, one half of the last
   word remains unused, just like the argument list had been padded. It will also not be used if another
@@ -47,10 +49,12 @@ def elemsArgs : XArgs → Nat
 end
 
 mutual
-/-- the argument contains a placeholder `?` -/
+/-- the argument stands for at least one placeholder `?`.  A `DUP` with a count ≤ 0 stands for nothing at all (`elemsArg`: zero
+elements; `Spec/Data.lean specArg`: `n DUP (…)`, `n ≤ 0`, lays nothing whatever its body is): what is written in its body is
+neither a reservation nor a constant definition of the statement. -/
 def hasQ : XArg → Bool
   | .q => true
-  | .dup _ as => hasQs as
+  | .dup n as => decide (0 < n) && hasQs as
   | _ => false
 def hasQs : XArgs → Bool
   | .nil => false
@@ -58,10 +62,10 @@ def hasQs : XArgs → Bool
 end
 
 mutual
-/-- the argument contains a constant -/
+/-- the argument stands for at least one constant (see `hasQ` for `DUP` with a count ≤ 0) -/
 def hasC : XArg → Bool
   | .q => false
-  | .dup _ as => hasCs as
+  | .dup n as => decide (0 < n) && hasCs as
   | _ => true
 def hasCs : XArgs → Bool
   | .nil => false
